@@ -105,7 +105,7 @@ def gen_cases(tier, plan, with_stride):
     # second centre: every cell within 2 deviations of a non-default corner (pseudo types, normalised bank, mean
     # bias, mixed flags, SAME padding, dilation 2, non-square)
     c2 = dict(CENTRE2, **({"stride": 2} if with_stride else {}))
-    for cell, dev in explore.cells(explore.recentre(dims(2, with_stride), c2), 2):
+    for cell, dev in explore.cells(explore.recentre(dims(2, with_stride), c2), 3 if tier == "thorough" else 2):
         out.append(dict(cell, d=2, dev=dev + 10))
     out = explore.dedupe(out, lambda c: repr(sorted((k, str(v)) for k, v in c.items() if k != "dev")))
     for c in out:
